@@ -45,6 +45,10 @@ def run(e: Engine, rep: Report):
     rep.rule('L7', 'no silent `with Timeout(t, False)` encloses a protocol '
              'exchange of the relay client: a swallowed timeout leaves a '
              'reply owed on a connection that is then reused')
+    rep.rule('L8', 'the failure reported for an attempt is built from this '
+             'attempt: the error reply is a fresh 4xx or the 421 the server '
+             'just sent, never an earlier non-421 reply kept on the reused '
+             'connection (= C11 N4 for _get_error_reply)')
     rep.not_decided += ['real interleavings of greenlets (the rules decide '
                         'the per-function structure those interleavings '
                         'rely on)', 'numeric pool sizes']
@@ -53,6 +57,15 @@ def run(e: Engine, rep: Report):
     l4(e, rep)
     l5_l6(e, rep)
     l7(e, rep)
+    from . import c11
+    sub = Report(rep.prop, rep.tier, rep.repo)
+    c11.n4_catch_all(e, sub)
+    for o in sub.obls:
+        rep.add('L8', o.where, o.text, o.status, o.what, o.loc, o.witness,
+                o.nontrivial, o.reason)
+    rep.errors += sub.errors
+    rep.evaluations += sub.evaluations
+    rep.functions |= sub.functions
     rep.floor('L1', 4, 'pool growth sites')
     rep.floor('L4', 9, 'deque overrides')
 
@@ -93,6 +106,23 @@ def l1_l2(e: Engine, rep: Report):
                   '_add_client is called from %s, outside the two guarded '
                   'sites' % f.qname, loc=f.loc(n),
                   reason='guarded call site')
+    # at most one client is added per call of either site: _check_idle adds
+    # one below the bound, _remove_client replaces the one it dropped
+    for meth in ('_check_idle', '_remove_client'):
+        cx = e.method_ctx(POOL, meth)
+        gg = e.build(cx, raises=lambda b, n, r: set())
+        adds = [n for n in gg.calls() if e.call_name(n) == '_add_client']
+        cnt = dataflow.count_events(gg, lambda n: 1 if n in adds else 0,
+                                    cap=3).get(gg.exit.id)
+        rep.evaluations += 1
+        rep.check(cnt is not None and cnt <= frozenset([0, 1]), 'L1',
+                  cx.func.qname, 'at most one client is added per call',
+                  '%s can add %s clients in one call: the test that guards '
+                  'the first _add_client (below pool_size / pool empty) no '
+                  'longer holds for the following ones, so the pool grows '
+                  'past its configured size' % (
+                      meth, sorted(cnt) if cnt else '?'),
+                  loc=cx.func.loc(), reason='0 or 1 _add_client per call')
     # _check_idle guard
     ctx = e.method_ctx(POOL, '_check_idle')
     g = e.build(ctx)
